@@ -55,6 +55,10 @@ type vEnv struct {
 	earlyServed           []int
 	populatedBeforeChecks bool
 	fixed                 [][3][]int // pre-drawn graph (C10: the same graph is started twice)
+	lookupMode            bool       // a component's Init may look another component up through the factory
+	lookupOf              []int      // per node: -2 not decided, -1 none, else target
+	lookupGot             []any
+	userProcFalse         bool // a user processor may answer false in PostProcessAfterInstantiation
 	regOrder              []int
 }
 
@@ -101,9 +105,21 @@ func (v *vNode) AfterPropertiesSet() error {
 	return nil
 }
 func (v *vNode) Init() error {
-	v.env.ev(evInit, v.idx)
-	if v.env.fault(evInit, v.idx) {
+	e := v.env
+	e.ev(evInit, v.idx)
+	if e.fault(evInit, v.idx) {
 		return errBoom
+	}
+	if e.lookupMode && e.lookupOf[v.idx] == -2 {
+		// a factory-aware component: its Init looks another component up by name
+		e.lookupOf[v.idx] = nd.Choose(e.n+1) - 1
+		if t := e.lookupOf[v.idx]; t >= 0 {
+			c, err := e.f.GetComponentByName(e.nodes[t].name)
+			if err != nil {
+				return err
+			}
+			e.lookupGot[v.idx] = c
+		}
 	}
 	return nil
 }
@@ -280,6 +296,29 @@ func (p *vProc) GetEarlyBeanReference(c any, name string) (any, error) {
 	return c, nil
 }
 
+// vProc0: an ordered user processor that runs before the resolution processor and may decline
+// (PostProcessAfterInstantiation = false); that only skips ITS OWN PostProcessProperties.
+type vProc0 struct {
+	env *vEnv
+}
+
+func (p *vProc0) LazyInit()                                                    {}
+func (p *vProc0) Order() int                                                   { return -5 }
+func (p *vProc0) PostProcessBeforeInitialization(c any, n string) (any, error) { return c, nil }
+func (p *vProc0) PostProcessAfterInitialization(c any, n string) (any, error)  { return c, nil }
+func (p *vProc0) PostProcessBeforeInstantiation(m *component_definition.Meta, n string) (any, error) {
+	return nil, nil
+}
+func (p *vProc0) PostProcessAfterInstantiation(c any, n string) (bool, error) {
+	if p.env.userProcFalse {
+		return nd.Bool(), nil
+	}
+	return true, nil
+}
+func (p *vProc0) PostProcessProperties(props []*component_definition.Property, c any, n string) ([]*component_definition.Property, error) {
+	return nil, nil
+}
+
 var vNames = []string{"a", "b", "c", "d", "e"}
 
 // newMC builds the mini-container.  points: bitmask 1=P0 2=P1 4=S0.
@@ -295,6 +334,11 @@ func newMC(n, points int, lazyMix bool, reqMode int, faults int) *vEnv {
 	e.chosen = make([][3]bool, n)
 	e.choice = make([][3][]int, n)
 	e.required = make([][3]bool, n)
+	e.lookupOf = make([]int, n)
+	e.lookupGot = make([]any, n)
+	for i := range e.lookupOf {
+		e.lookupOf[i] = -2
+	}
 	for i := 0; i < n; i++ {
 		var raw any
 		var node *vNode
@@ -310,9 +354,11 @@ func newMC(n, points int, lazyMix bool, reqMode int, faults int) *vEnv {
 		e.nodes = append(e.nodes, node)
 		e.raws = append(e.raws, raw)
 		m := e.f.definitionRegistry.GetMetaOrRegister(node.name, raw)
+		// optionally a component has no injection point at all
+		bare := nd.Param("BARE", 0) == 1 && nd.Bool()
 		for _, fld := range m.Fields {
 			pt := pointIndex(fld.StructField.Name)
-			if pt < 0 || points&(1<<uint(pt)) == 0 {
+			if pt < 0 || points&(1<<uint(pt)) == 0 || bare {
 				continue
 			}
 			tag := ""
@@ -328,6 +374,7 @@ func newMC(n, points int, lazyMix bool, reqMode int, faults int) *vEnv {
 	}
 	proc := &vProc{env: e}
 	e.f.postProcessorRegistrationDelegate.RegisterComponentPostProcessors(proc, "vProc")
+	e.f.postProcessorRegistrationDelegate.RegisterComponentPostProcessors(&vProc0{env: e}, "vProc0")
 	err := e.f.postProcessorRegistrationDelegate.InvokeBeanFactoryPostProcessors(e.f, nil)
 	nd.Assert(err == nil, "processor registration ok")
 	return e
@@ -354,6 +401,12 @@ func (e *vEnv) checkIdentity(prefix string) {
 		pub[i] = c1
 		if e.wrapNode != i {
 			nd.Assert(c1 == e.raws[i], prefix+": an unwrapped component is published as the registered object")
+		}
+	}
+	for hi := range e.nodes {
+		if e.lookupMode && e.lookupOf[hi] >= 0 {
+			nd.Cover("lookup from Init")
+			nd.Assert(e.lookupGot[hi] == pub[e.lookupOf[hi]], prefix+": a lookup issued from an Init callback returns the instance that is finally published")
 		}
 	}
 	for hi, h := range e.nodes {
@@ -431,6 +484,11 @@ func (e *vEnv) reach() [][]bool {
 			}
 		}
 	}
+	for i := 0; i < e.n; i++ {
+		if e.lookupMode && e.lookupOf[i] >= 0 && e.lookupOf[i] != i {
+			r[i][e.lookupOf[i]] = true
+		}
+	}
 	for k := 0; k < e.n; k++ {
 		for i := 0; i < e.n; i++ {
 			for j := 0; j < e.n; j++ {
@@ -450,6 +508,7 @@ func (e *vEnv) reach() [][]bool {
 func VerifC01() {
 	n := nd.Param("N", 2)
 	e := newMC(n, nd.Param("POINTS", 5), false, nd.Param("REQ", 2), 0)
+	e.lookupMode = nd.Param("LOOKUP", 0) == 1
 	err := e.f.Refresh()
 	e.observe(err)
 	if err != nil {
@@ -507,6 +566,7 @@ func VerifC03() {
 	e.wrapEarly = nd.Bool()
 	e.wrapAfter = nd.Bool()
 	e.sameWrapper = nd.Bool()
+	e.lookupMode = nd.Param("LOOKUP", 0) == 1
 	err := e.f.Refresh()
 	if err != nil {
 		nd.Cover("start failed")
@@ -544,6 +604,17 @@ func (e *vEnv) checkIdentityWrapped() {
 		nd.Assert(err1 == nil, "C03: lookup by name succeeds after a successful start")
 		pub[i] = c1
 	}
+	all, errAll := e.f.GetComponents()
+	nd.Assert(errAll == nil && len(all) == e.n, "C01: the bulk lookup returns every component once")
+	for _, c := range all {
+		cnt := 0
+		for i := range pub {
+			if c == pub[i] {
+				cnt++
+			}
+		}
+		nd.Assert(cnt == 1, "C01: the bulk lookup returns the published version of every component")
+	}
 	for hi, h := range e.nodes {
 		for pt := 0; pt < 2; pt++ {
 			tg := e.choice[hi][pt]
@@ -572,6 +643,8 @@ func VerifC05() {
 	n := nd.Param("N", 2)
 	e := newMC(n, nd.Param("POINTS", 5), nd.Param("LAZY", 1) == 1, 2, 0)
 	e.populatedBeforeChecks = true
+	e.lookupMode = nd.Param("LOOKUP", 0) == 1
+	e.userProcFalse = nd.Param("PROC0", 0) == 1
 	err := e.f.Refresh()
 	e.observe(err)
 	// ordering constraints hold on whatever events exist
